@@ -42,9 +42,9 @@ Section Holds.
   Proof. apply forallb_entry_ok. Qed.
 
   (* ---- kind 0 ---- *)
-  Lemma contains_case : ckind c = KContains -> holds c (run_model c) = [].
+  Lemma contains_case : ckind c = KContains -> holds_req c (run_req c) = [].
   Proof.
-    intros K. pose proof Rok as R. unfold holds, run_model, ref_ok, cmember, cwell_typed, cstage, ceffective in *.
+    intros K. pose proof Rok as R. unfold holds_req, run_req, ref_ok, cmember, cwell_typed, cstage, ceffective in *.
     rewrite K in *. cbn [ocode ocount is_member exp_well_typed] in *.
     set (r := contains (P4 c) (P6 c) (craise c) (centries c) (cclient c)).
     set (m := member (P4 c) (P6 c) (centries c) (cclient c)) in *.
@@ -79,9 +79,9 @@ Section Holds.
     intros W M. rewrite (membership_spec (P4 c) (P6 c) L4 L6 l cl (wt_forall l W)). now rewrite M.
   Qed.
 
-  Lemma file_case : ckind c = KFile -> holds c (run_model c) = [].
+  Lemma file_case : ckind c = KFile -> holds_req c (run_req c) = [].
   Proof.
-    intros K. pose proof Rok as R. unfold holds, run_model, ref_ok, cmember, cwell_typed, cstage, ceffective, crestricted, granted_code in *.
+    intros K. pose proof Rok as R. unfold holds_req, run_req, ref_ok, cmember, cwell_typed, cstage, ceffective, crestricted, granted_code in *.
     rewrite K in *. cbn [ocode ocount] in *.
     set (cfg := fcfg_of c) in *. set (env := fenv_of c) in *.
     change (ckey c) with (key_set cfg) in *. change (centries c) with (cfg_list cfg) in *.
@@ -119,12 +119,12 @@ Section Holds.
       rewrite (NL1 eq_refl). cbn. destruct (cref c) as [[|]|]; reflexivity.
   Qed.
 
-  Lemma update_case : ckind c = KUpdate -> holds c (run_model c) = [].
+  Lemma update_case : ckind c = KUpdate -> holds_req c (run_req c) = [].
   Proof.
-    intros K. pose proof Rok as R. unfold holds, run_model, ref_ok, cmember, cwell_typed, cstage, ceffective, crestricted, granted_code in *.
+    intros K. pose proof Rok as R. unfold holds_req, run_req, ref_ok, cmember, cwell_typed, cstage, ceffective, crestricted, granted_code in *.
     rewrite K in *. cbn [ocode ocount] in *.
-    pose proof (deny_before_change_update (P4 c) (P6 c) L4 L6 (ckey c) (centries c) (cgetd c) (cclient c)) as DB.
-    set (r := update_handle (P4 c) (P6 c) (ckey c) (centries c) (cgetd c) (cclient c)) in *.
+    pose proof (deny_before_change_update_f (P4 c) (P6 c) L4 L6 (cbad_body c) (cstore_fault c) (ckey c) (centries c) (cgetd c) (cclient c)) as DB.
+    set (r := update_handle_f (P4 c) (P6 c) (cbad_body c) (cstore_fault c) (ckey c) (centries c) (cgetd c) (cclient c)) in *.
     destruct (restricted (ckey c) (centries c)) eqn:Rs; cbn [andb implb negb orb].
     2:{ destruct (cref c) as [[|]|]; reflexivity. }
     destruct (update_stage (ckey c) (cgetd c)) as [st|] eqn:S.
@@ -133,25 +133,30 @@ Section Holds.
       + rewrite implb_true_r. cbn [negb]. rewrite implb_false_l, andb_false_r, implb_false_l. cbn [chk app].
         destruct (cref c) as [[|]|]; try reflexivity; [|discriminate R].
         apply chk_ok. apply implb_intro. intros Hw.
-        unfold r, Handlers.update_handle. rewrite S. fold e. rewrite (granted_member e _ Hw M). reflexivity.
+        unfold r, Handlers.update_handle_f, update_apply. rewrite S. fold e. rewrite (granted_member e _ Hw M).
+        destruct (cbad_body c); [reflexivity|]. destruct (cstore_fault c); reflexivity.
       + assert (NM : forall st0, Some st = Some st0 ->
                   is_member (P4 c) (P6 c) (combine (centries c) (if ckey c then key_expected (fst st0) (snd st0) else ENone)) (cclient c) = false).
         { intros st0 E. inversion E; subst. exact M. }
         destruct (DB eq_refl NM) as (D0 & D1).
-        assert (NG : (hres_code (fst r) =? 4) = false) by (destruct (fst r); try reflexivity; congruence).
+        assert (NG : (hres_code (fst r) =? 4) || (hres_code (fst r) =? 5) = false)
+          by (destruct D1 as [D1|D1]; rewrite D1; reflexivity).
         rewrite NG, D0. cbn [negb andb orb implb N.eqb chk app].
         rewrite (chk_ok (implb (exp_well_typed e && true) _)).
         2:{ apply implb_intro. intros W. rewrite andb_true_r in W.
-            unfold r, Handlers.update_handle. rewrite S. fold e.
+            unfold r, Handlers.update_handle_f. rewrite S. fold e.
             rewrite (check_denied (P4 c) (P6 c) L4 L6 e _ W M). reflexivity. }
         cbn [app]. destruct (cref c) as [[|]|]; try reflexivity.
         apply chk_ok. apply implb_intro. intros Hw. rewrite Hw in R. discriminate R.
-    - assert (E : r = (HError, 0)) by (unfold r, Handlers.update_handle; now rewrite S).
+    - assert (E : r = (HError, 0)) by (unfold r, Handlers.update_handle_f; now rewrite S).
       rewrite E. cbn. destruct (cref c) as [[|]|]; reflexivity.
   Qed.
 
   Theorem holds_model : holds c (run_model c) = [].
-  Proof. destruct (ckind c) eqn:K; [now apply contains_case|now apply file_case|now apply update_case]. Qed.
+  Proof.
+    unfold holds, run_model. destruct (method_refused c); [reflexivity|].
+    destruct (ckind c) eqn:K; [now apply contains_case|now apply file_case|now apply update_case].
+  Qed.
 End Holds.
 
 (* ---- histories ---- *)
